@@ -222,11 +222,24 @@ class TransformationPerformer:
         transformation_inst.subgraph_id,
         trans_info,
     )
-    self._update_op_id_map(
-        transformation_inst.subgraph_id,
-        min(instruction.consumers),
-        trans_info.num_ops_added,
-    )
+    if trans_info.num_ops_added:
+      subgraph_id = transformation_inst.subgraph_id
+      # Every op that now sits at or after the insertion point moves back,
+      # whether it is an original op or an op added earlier (the last entry of
+      # the added map is the op that was just added).
+      added_op_id_map = self._added_op_id_map[subgraph_id]
+      for i in range(len(added_op_id_map) - 1):
+        if added_op_id_map[i] >= trans_info.op_id:
+          added_op_id_map[i] += trans_info.num_ops_added
+      original_op_id_map = self._original_op_id_map[subgraph_id]
+      first_shifted_op_id = len(original_op_id_map)
+      for original_op_id, current_op_id in enumerate(original_op_id_map):
+        if current_op_id >= trans_info.op_id:
+          first_shifted_op_id = original_op_id
+          break
+      self._update_op_id_map(
+          subgraph_id, first_shifted_op_id, trans_info.num_ops_added
+      )
 
   def _apply_transformations(
       self,
